@@ -17,10 +17,10 @@ BUILT = {
          "Theorems over every well-formed circuit tree / commutative semiring; correspondence on generated circuits x "
          "4 parameter classes x 3 semirings x fold x optimize x batch sizes {1,2,F,F+1}, exact where float64 is exact, "
          "1e-9 relative to the magnitude bound otherwise.", "DESIGN.md 4/C01"),
- "C02": ("Lean 4 proof (fold_sound for every graph / module semantics / valid certificate, address-book gather "
+ "C02": ("Lean 4 proof (fold_sound for every graph / module semantics / valid certificate; buildFolded_valid: the modelled build_folded_graph always emits a valid certificate; address-book gather "
          "lemmas, rewrite identities) + correspondence: certificate of the real fold validated by the model, "
          "flag-equivalence of compiled outputs, registry addressability",
-         "fold_sound is proved for all graphs and certificates; each run validates the certificate and address-book "
+         "fold_sound is proved for all graphs and certificates and buildFolded_valid for every layer-wise ordering; each run validates the certificate and address-book "
          "entries produced by the real build_folded_graph (harness spy) with the Lean model, compares the 4 flag "
          "combinations with each other and with the Lean evaluator after writing one valuation through the registry.",
          "DESIGN.md 4/C02"),
